@@ -848,9 +848,9 @@ struct VM : VMBase
       {
         if (s.valid)
         {
-          record(EV_FLUSH_INVOKE, -1);
+          record(EV_FLUSH_INVOKE, &s - slots.data());
           s.lg->flush_log();
-          record(EV_FLUSH_RETURN, -1);
+          record(EV_FLUSH_RETURN, &s - slots.data());
           break;
         }
       }
